@@ -9,6 +9,8 @@ open Zc Zc.Wire Zc.Wire.Strict
 /-- a label the wire format can carry: 1..63 bytes -/
 def WFLabel (l : Label) : Prop := 1 ≤ l.length ∧ l.length ≤ 63
 
+instance (l : Label) : Decidable (WFLabel l) := by unfold WFLabel; infer_instance
+
 /-- a names-table entry that is decodable: its offset lies before `S`, after the header and within
 pointer range, and the strict decoder reads its key there using at most `key.length` segments -/
 def GoodBefore (S : Nat) (buf : Bytes) (p : WName × Nat) : Prop :=
